@@ -438,10 +438,10 @@ def run_property(pid, eng, tier, seed, t0):
     # ---------------- 1. build: constants, Coq, audit, runner, harness ----------------
     proof_problems = []
     with vlib.BuildLock():
-        rc, out = vlib.gen_constants()
+        rc, out = vlib.gen_constants(pid)
         if rc != 0:
-            proof_problems.append({"what": "T-gen: constants could not be regenerated from the source", "log": out[-2000:]})
-        ok, mk = vlib.coq_make()
+            proof_problems.append({"what": "T-gen: constants / sites could not be regenerated from the source", "log": out[-2000:]})
+        ok, mk = vlib.coq_make_property(pid)
         if not ok:
             proof_problems.append({"what": "Coq build failed (a proof obligation no longer checks against the regenerated constants/model)",
                                    "log": mk[-3000:]})
